@@ -814,6 +814,121 @@ func c13RandomScenario(w *core.W, kind string, j int, seed uint64) {
 	e.finish(reqs, true)
 }
 
+// scenario: the server is started again while a Shutdown is still waiting for a held handler.
+func c13RestartDuringDrain(w *core.W, kind string, seed uint64) {
+	e := newC13Env(w, kind, "restart-during-drain", seed)
+	if !e.start() {
+		return
+	}
+	e.holdOn.Store(true)
+	r1 := e.send(60)
+	deadline := time.Now().Add(c13Watch)
+	for e.entered.Load() < 1 && time.Now().Before(deadline) {
+		time.Sleep(time.Millisecond)
+	}
+	sg := e.ctl.Gate("shutdown.unlocked", false)
+	sd := e.shutdown("s1", nil)
+	sg.WaitArrived(2 * time.Second)
+	sg.Release()
+	time.Sleep(5 * time.Millisecond) // Shutdown is now waiting for the held handler
+	// second start on a fresh transport
+	oldLn, oldPc := e.ln, e.pc
+	started2 := make(chan struct{})
+	var once sync.Once
+	e.srv.NotifyStartedFunc = func() { once.Do(func() { close(started2) }) }
+	switch kind {
+	case "tcp-sim":
+		e.ln = netsim.NewListener()
+		e.srv.Listener = e.ln
+	case "pc-sim":
+		e.pc = netsim.NewPacketConn()
+		e.srv.PacketConn = e.pc
+	}
+	serve2 := make(chan error, 1)
+	e.ctl.Note("start.call", "second")
+	go func() { serve2 <- e.srv.ActivateAndServe() }()
+	second := "started"
+	select {
+	case <-started2:
+	case err := <-serve2:
+		second = fmt.Sprintf("returned %v", err)
+		serve2 <- err
+	case <-time.After(c13Watch):
+		second = "blocked"
+		e.viol("restart-during-drain/second-start-blocks", "a start issued while Shutdown is draining neither started nor returned an error")
+	}
+	e.ctl.Note("second.start", second)
+	e.holdOn.Store(false)
+	close(e.hold)
+	err, ok := sd.wait(c13Watch)
+	if !ok {
+		e.viol("restart-during-drain/first-shutdown-does-not-return", fmt.Sprintf("the Shutdown that was draining never returned after the server was started again (second start: %s)", second))
+	} else if err != nil {
+		e.viol("restart-during-drain/first-shutdown-error", fmt.Sprintf("Shutdown returned %v", err))
+	}
+	// the first serve call
+	select {
+	case serr := <-e.serveErr:
+		if serr != nil {
+			e.viol("restart-during-drain/first-serve-error", fmt.Sprintf("first serve call returned %v", serr))
+		}
+	case <-time.After(c13Watch):
+		e.viol("restart-during-drain/first-serve-does-not-return", "the first serve call did not return")
+	}
+	// if the second start succeeded the server must work and shut down cleanly
+	if second == "started" {
+		r2 := e.send(61)
+		select {
+		case okr := <-r2.reply:
+			if !okr {
+				e.viol("restart-during-drain/second-server-does-not-answer", "the server started during the drain does not answer")
+			}
+		case <-time.After(c13Watch):
+			e.viol("restart-during-drain/second-server-does-not-answer", "the server started during the drain does not answer")
+		}
+		r2.close()
+		done := make(chan error, 1)
+		go func() { done <- e.srv.Shutdown() }()
+		select {
+		case err := <-done:
+			if err != nil {
+				e.viol("restart-during-drain/second-shutdown-error", fmt.Sprintf("%v", err))
+			}
+		case <-time.After(c13Watch):
+			e.viol("restart-during-drain/second-shutdown-does-not-return", "Shutdown of the restarted server does not return")
+		}
+		select {
+		case <-serve2:
+		case <-time.After(c13Watch):
+			e.viol("restart-during-drain/second-serve-does-not-return", "the second serve call did not return")
+		}
+	}
+	r1.close()
+	if oldLn != nil {
+		oldLn.Close()
+	}
+	if oldPc != nil {
+		oldPc.Close()
+	}
+	if e.ln != nil {
+		e.ln.Close()
+	}
+	if e.pc != nil {
+		e.pc.Close()
+	}
+	deadline = time.Now().Add(3 * time.Second)
+	for serverGoroutines() > 0 && time.Now().Before(deadline) {
+		time.Sleep(5 * time.Millisecond)
+	}
+	if n := serverGoroutines(); n > 0 {
+		e.viol("restart-during-drain/goroutine-leak", fmt.Sprintf("%d server goroutine(s) remain", n))
+	}
+	e.w.Count("scenarios", 1)
+	e.w.Count("restart_during_drain", 1)
+	e.w.NontrivialStr(kind, "restart-during-drain", second)
+	sched.Use(nil)
+}
+
 type c13Case struct {
 	name string
 	run  func(w *core.W, seed uint64)
@@ -847,6 +962,9 @@ func c13Cases() []c13Case {
 			}
 		}
 		cs = append(cs, c13Case{kind + " misuse", func(w *core.W, s uint64) { c13MisuseScenario(w, kind, s) }})
+		if kind == "tcp-sim" || kind == "pc-sim" {
+			cs = append(cs, c13Case{kind + " restart during drain", func(w *core.W, s uint64) { c13RestartDuringDrain(w, kind, s) }})
+		}
 		if kind == "tcp-sim" || kind == "pc-sim" {
 			cs = append(cs, c13Case{kind + " pause", func(w *core.W, s uint64) { c13PauseScenario(w, kind, s) }})
 		}
